@@ -166,17 +166,18 @@ Proof.
 Qed.
 Lemma ev_opt_ext : forall st0 st sc r, ext st0 st -> ext st0 (snd (ev_opt ev st sc r)).
 Proof. intros st0 st sc [e|] H; simpl; ext_go. Qed.
-Lemma ev_inits_seq_ext : forall bs st0 st sc f, ext st0 st -> ext st0 (snd (ev_inits_seq m ev st sc f bs)).
+Lemma ev_inits_seq_ext : forall bs st0 st sc, ext st0 st -> ext st0 (snd (ev_inits_seq m ev st sc bs)).
 Proof.
-  induction bs as [|[[x e] s0] bs IH]; intros; simpl; ext_go. apply IH; ext_go.
+  induction bs as [|[[x e] s0] bs IH]; intros; simpl; ext_go. apply IH.
+  change (mkSt (frames s ++ [[(x, a0)]]) (funs s) (trace s)) with (snd (alloc s [(x, a0)])). ext_go.
 Qed.
 Lemma ev_steps_par_ext : forall bs st0 st sc, ext st0 st -> ext st0 (snd (ev_steps_par m ev st sc bs)).
 Proof.
   induction bs as [|[[x e] [s0|]] bs IH]; intros; simpl; ext_go; apply IH; assumption.
 Qed.
-Lemma ev_steps_seq_ext : forall bs st0 st sc f, ext st0 st -> ext st0 (snd (ev_steps_seq m ev st sc f bs)).
+Lemma ev_steps_seq_ext : forall bs st0 st sc fs, ext st0 st -> ext st0 (snd (ev_steps_seq m ev st sc fs bs)).
 Proof.
-  induction bs as [|[[x e] [s0|]] bs IH]; intros; simpl; ext_go; apply IH; ext_go.
+  induction bs as [|[[x e] [s0|]] bs IH]; intros st0 st sc [|f fs] H; simpl; ext_go; apply IH; ext_go.
 Qed.
 Lemma fold_bind_in_ext : forall (xs : list (string * val)) st0 st f, ext st0 st ->
   ext st0 (fold_left (fun s xv => bind_in s f (fst xv) (snd xv)) xs st).
@@ -197,7 +198,7 @@ Ltac ext_h :=
   | |- ext _ (snd (ev_map _ _ _ _ _)) => apply ev_map_ext
   | |- ext _ (snd (ev_iter _ _ _ _ _ _ _)) => apply ev_iter_ext
   | |- ext _ (snd (ev_opt _ _ _ _)) => apply ev_opt_ext
-  | |- ext _ (snd (ev_inits_seq _ _ _ _ _ _)) => apply ev_inits_seq_ext
+  | |- ext _ (snd (ev_inits_seq _ _ _ _ _)) => apply ev_inits_seq_ext
   | |- ext _ (snd (ev_steps_par _ _ _ _ _)) => apply ev_steps_par_ext
   | |- ext _ (snd (ev_steps_seq _ _ _ _ _ _)) => apply ev_steps_seq_ext
   | |- ext _ (fold_left _ _ _) => apply fold_bind_in_ext
